@@ -295,6 +295,8 @@ type runner struct {
 	idx    int
 	port   int
 	real   map[string]string // model task -> real task id
+
+	lastResidue string
 }
 
 func (r *runner) uri(task string) string {
@@ -470,8 +472,8 @@ type obs struct {
 	quit                   map[string]bool
 	reg, rpc, sub          map[string]int
 	seekok                 map[string]bool
-	gl, ge, gp             map[string]int
-	gu                     int
+	gl, ge, gp, gw         map[string]int
+	gu, gup                int
 	classes                []string
 }
 
@@ -479,7 +481,7 @@ func (r *runner) snapshot() *obs {
 	o := &obs{get: map[string]string{}, list: map[string]string{}, stored: map[string]string{}, mem: map[string]string{},
 		nck: map[string]int{}, ent: map[string]int{"a1": -1, "a2": -1}, quit: map[string]bool{},
 		reg: map[string]int{}, rpc: map[string]int{}, sub: map[string]int{}, seekok: map[string]bool{},
-		gl: map[string]int{}, ge: map[string]int{}, gp: map[string]int{}}
+		gl: map[string]int{}, ge: map[string]int{}, gp: map[string]int{}, gw: map[string]int{}}
 	env := r.env
 	// goroutines first (they are what is still winding down)
 	for _, g := range lifeenv.Census() {
@@ -487,14 +489,22 @@ func (r *runner) snapshot() *obs {
 			continue
 		}
 		o.classes = append(o.classes, fmt.Sprintf("%s:%s:%d", g.Task, g.Class, g.Count))
-		if g.Task != "t1" && g.Task != "t2" {
+		if g.Task != "t1" && g.Task != "t2" { // started by ReloadTask (label "reload")
+			if g.Waiter {
+				continue
+			}
 			o.gu += g.Count
+			if g.Poller {
+				o.gup += g.Count
+			}
 			continue
 		}
 		if g.Poller {
 			o.gp[g.Task] += g.Count
 		}
-		if g.Task1 {
+		if g.Waiter {
+			o.gw[g.Task] += g.Count
+		} else if g.Task1 {
 			o.gl[g.Task] += g.Count
 		} else {
 			o.ge[g.Task] += g.Count
@@ -563,50 +573,80 @@ func (r *runner) snapshot() *obs {
 	return o
 }
 
-// quietEnough is only the condition for ending the wait early; what is logged is what is observed.
-func (r *runner) quietEnough(o *obs) bool {
+// residue lists what keeps an observation from being the expected quiet picture ("" = quiet).  It is only
+// used to end the wait early; what is logged is what is observed.
+func (r *runner) residue(o *obs) string {
+	var res []string
 	running := map[string]bool{}
 	for _, t := range tasks {
 		if o.mem[t] == "Running" {
 			running[r.tgt(t)] = true
 			c, _ := lifeenv.CollByName(collOf[t])
 			if o.reg[t] < len(c.PChannels) {
-				return false
+				res = append(res, fmt.Sprintf("%s reads %d", t, o.reg[t]))
 			}
 			continue
 		}
 		if o.reg[t]+o.rpc[t]+o.sub[t]+o.gl[t] > 0 {
-			return false
+			res = append(res, fmt.Sprintf("%s left %d %d %d %d", t, o.reg[t], o.rpc[t], o.sub[t], o.gl[t]))
 		}
 	}
 	for _, t := range tasks {
 		if !running[r.tgt(t)] && o.ge[t]-o.gp[t] > 0 {
-			return false
+			res = append(res, fmt.Sprintf("%s entity goroutines %d", t, o.ge[t]-o.gp[t]))
 		}
 	}
-	return true
+	if len(running) == 0 && o.gu-o.gup > 0 {
+		res = append(res, fmt.Sprintf("reload goroutines %d", o.gu-o.gup))
+	}
+	return strings.Join(res, "; ")
 }
 
+func (r *runner) quietEnough(o *obs) bool { return r.residue(o) == "" }
+
+// key: the part of an observation that must have stopped changing before it is logged
+func (o *obs) key() string {
+	b, _ := json.Marshal([]interface{}{o.mem, o.stored, o.gauge, o.ent, o.quit, o.reg, o.rpc, o.sub, o.gl, o.ge, o.gp, o.gu, o.gup})
+	return string(b)
+}
+
+// observe waits until the process has wound down what the call left to background goroutines: either the
+// expected quiet picture is there, or the observation has not changed for C11_STABLE_MS (150 ms), at most
+// C11_QUIET_MS (1000 ms).  No conclusion is drawn from the wait itself: what is logged is what is observed.
 func (r *runner) observe(ev hx.Event) {
-	deadline := time.Now().Add(time.Duration(envInt("C11_QUIET_MS", 1000)) * time.Millisecond)
+	t0 := time.Now()
+	deadline := t0.Add(time.Duration(envInt("C11_QUIET_MS", 1000)) * time.Millisecond)
+	stable := time.Duration(envInt("C11_STABLE_MS", 150)) * time.Millisecond
 	var o *obs
 	sleep := time.Millisecond
+	lastKey, lastChange := "", time.Now()
 	for {
 		o = r.snapshot()
-		if r.quietEnough(o) || time.Now().After(deadline) {
+		// quiet, or exactly the left-over that was already there (and waited for) after the previous step
+		if res := r.residue(o); res == "" || res == r.lastResidue {
+			break
+		}
+		if k := o.key(); k != lastKey {
+			lastKey, lastChange = k, time.Now()
+		}
+		if time.Since(lastChange) >= stable || time.Now().After(deadline) {
 			break
 		}
 		time.Sleep(sleep)
-		if sleep < 20*time.Millisecond {
+		if sleep < 16*time.Millisecond {
 			sleep *= 2
 		}
 	}
+	ev["ms"] = int(time.Since(t0) / time.Millisecond)
+	r.lastResidue = r.residue(o)
 	ev["get"], ev["list"], ev["listok"], ev["stored"], ev["mem"] = o.get, o.list, o.listok, o.stored, o.mem
 	ev["gauge"], ev["nck"], ev["ent"], ev["quit"] = o.gauge, o.nck, o.ent, o.quit
 	ev["reg"], ev["rpc"], ev["sub"], ev["seekok"] = fill(o.reg), fill(o.rpc), fill(o.sub), o.seekok
-	ev["gl"], ev["ge"], ev["gp"], ev["gu"] = fill(o.gl), fill(o.ge), fill(o.gp), o.gu
+	ev["gl"], ev["ge"], ev["gp"], ev["gu"], ev["gw"] = fill(o.gl), fill(o.ge), fill(o.gp), o.gu, fill(o.gw)
+	ev["gup"] = o.gup
 	ev["tgt"] = map[string]string{"t1": r.tgt("t1"), "t2": r.tgt("t2")}
-	if o.classes == nil {
+	// diagnostics only (ignored by the acceptor): which goroutines were left, when the quiet picture was not reached
+	if o.classes == nil || r.quietEnough(o) {
 		o.classes = []string{}
 	}
 	ev["classes"] = o.classes
